@@ -58,6 +58,7 @@ func p11EmitPrint(o *out, cfg printer.Config, f *ir.File, st map[string]int) (st
 		return "", false
 	}
 	o.emit("print "+e.String(), hexs(text))
+	p11EmitFloatLits(o, f, st)
 	wf := p11WellFormedFile(cfg, f)
 	o.emit("wf "+e.String(), p11B01(wf))
 	if wf {
@@ -67,6 +68,30 @@ func p11EmitPrint(o *out, cfg printer.Config, f *ir.File, st map[string]int) (st
 		st["malformed"]++
 	}
 	return text, true
+}
+
+// p11EmitFloatLits: every floating-point DATA value of the file, as the printer writes it, must be ONE float token of
+// the assembler's scanner between `$(` and `)` (Lean: Model/AsmLit floatOperandOK, theorem withPoint_float).
+func p11EmitFloatLits(o *out, f *ir.File, st map[string]int) {
+	for _, s := range f.Sections {
+		g, ok := s.(*ir.Global)
+		if !ok {
+			continue
+		}
+		for _, d := range g.Data {
+			kind := ""
+			switch d.Value.(type) {
+			case operand.F32:
+				kind = "f32"
+			case operand.F64:
+				kind = "f64"
+			default:
+				continue
+			}
+			st["float_literals"]++
+			o.emit("accept-floatlit "+kind+" "+hexs(d.Value.Asm()), "ok")
+		}
+	}
 }
 
 func init() {
@@ -912,6 +937,23 @@ type p11Asm struct {
 	dir, include string
 	seq          int
 	cfg          printer.Config
+	// pre: assembler runs done ahead of time (in parallel) by the caller, keyed by the printed text; nil = run here
+	pre map[string]p11AsmRun
+	// what the last measure call saw (for callers that look at more of the object: harness/c11cov.go)
+	lastAccepted bool
+	lastListing  string
+}
+
+// p11AsmRun is the outcome of one `go tool asm -S` run.
+type p11AsmRun struct {
+	msg []byte
+	err error
+}
+
+// p11RunAsm assembles one printed file.
+func p11RunAsm(include, spath, opath string) p11AsmRun {
+	msg, err := exec.Command("go", "tool", "asm", "-S", "-I", include, "-p", "p", "-o", opath, spath).CombinedOutput()
+	return p11AsmRun{msg, err}
 }
 
 // subFile: the data sections of a file and ONE of its functions.
@@ -954,8 +996,12 @@ func (a *p11Asm) measure(file *ir.File, tag string, want []p11Want, split bool) 
 			os.Remove(base + ".bin")
 		}()
 	}
-	cmd := exec.Command("go", "tool", "asm", "-S", "-I", a.include, "-p", "p", "-o", opath, spath)
-	msg, err := cmd.CombinedOutput()
+	run, have := a.pre[text]
+	if !have {
+		run = p11RunAsm(a.include, spath, opath)
+	}
+	msg, err := run.msg, run.err
+	a.lastAccepted, a.lastListing = err == nil, string(msg)
 	fns := file.Functions()
 	if err != nil {
 		st["asm_rejected"]++
